@@ -247,5 +247,17 @@ theorem C16_absent_total_order (o : OrderMap) (k : Int) (h : o.idx.get k = none)
     OrderMap.step o (.del k) = (o, .unit) ∧ OrderMap.step o (.get k) = (o, .intBool 0 false) := by
   simp [OrderMap.step, OrderMap.del, OrderMap.get, h]
 
+/-! ## non-vacuity -/
+
+example : OrderMap.run OrderMap.new [.add 1 10, .add 2 20, .add 3 30, .range, .del 1, .range, .get 3, .get 1, .del 7, .len] =
+    [.unit, .unit, .unit, .rows [[1, 10], [2, 20], [3, 30]], .unit, .rows [[3, 30], [2, 20]],
+     .intBool 30 true, .intBool 0 false, .unit, .int 2] := by decide
+
+example : SyncMap.run [] [.set 1 5, .deleteExist 2, .deleteExist 1, .deleteExist 1, .size, .getExist 1] =
+    [.unit, .bool false, .bool true, .bool false, .int 0, .intBool 0 false] := by decide
+
+example : Bucket.run Bucket.hash (Bucket.new 2) [.set 0 1, .set 2 3, .set (-1) 4, .len, .del 2, .get 2, .get (-1), .len] =
+    [.unit, .unit, .unit, .int 3, .unit, .intBool 0 false, .intBool 4 true, .int 2] := by decide
+
 end maps
 end MV.Props.C16
